@@ -11,13 +11,42 @@
 
 use corgi::numbers::Float;
 
-#[derive(Clone, Debug)]
+#[derive(Debug)]
 pub struct T {
     pub d: Vec<usize>,
     pub v: Vec<Float>,
     /// sparse tangents: `t[element]` = [(direction, ∂element/∂direction), …]
     pub t: Vec<Vec<(usize, Float)>>,
     pub ndir: usize,
+}
+
+/// Cloning is done element by element: the derived `Clone` (nested `Vec::clone`) costs CBMC the
+/// concrete lengths of the tangent rows, after which every loop over them unwinds to the bound
+/// (measured: 29 GB and out of memory instead of 2 GB).
+impl Clone for T {
+    fn clone(&self) -> T {
+        let n = self.v.len();
+        let mut d = Vec::with_capacity(self.d.len());
+        for x in self.d.iter() {
+            d.push(*x);
+        }
+        let mut v = Vec::with_capacity(n);
+        let mut t = Vec::with_capacity(n);
+        for i in 0..n {
+            v.push(self.v[i]);
+            let mut row = Vec::with_capacity(self.t[i].len());
+            for e in self.t[i].iter() {
+                row.push(*e);
+            }
+            t.push(row);
+        }
+        T {
+            d,
+            v,
+            t,
+            ndir: self.ndir,
+        }
+    }
 }
 
 /// acc += k · src   (sparse rows)
